@@ -25,7 +25,7 @@ PROPS = {
                 "bit offset), codon lengths 0,1,2,4,5, all 21 amino symbols for try_to_codon / to_codon; distinct = distinct line",
     },
     "C12": {
-        "modules": ["BioSeq.Props.C12"],
+        "modules": ["BioSeq.Props.C12", "BioSeq.Props.C12Literals"],
         "rule": "IUPAC set-algebra op lines: all 256 symbol pairs for & and | (borrowed operators and owned bit_and/bit_or) and contains (Seq and SeqSlice impls) with the two "
                 "operands embedded at independent bit offsets; random equal-length sequences (lengths 0,1,2,15..17,31..33,random) incl. sub-pattern pairs, all kinds of length "
                 "mismatch, complement, Dna->Iupac conversion from offset slices; distinct = distinct line",
